@@ -5,6 +5,7 @@ Model: DTML/Sort.lean.
 import DTML.Sort
 import DTML.Render
 import DTML.GenRender
+import DTML.Lemmas.SortGen
 set_option linter.unusedVariables false
 namespace DTML.Props.C13
 open DTML.Sort Std
@@ -423,5 +424,115 @@ end Interp
 an in-place reversal of the caller's list would not translate to this function) -/
 theorem gen_reverse_sequence_is_model (xs : List Render.Val) :
     GenRender.reverseSequenceGen xs = Render.applyReverse true xs := rfl
+
+/-! #### the comparison machinery of the source, translated on every run (GenSort.lean) -/
+
+namespace Gen
+open DTML.GenSort DTML.Lemmas.SortGen
+
+/-- **`SortBy.__call__` of the source is `cmpKeys`** (multi-key sort: the items are `(key list, client)`).  The function
+regenerated from DT_In.py on every run (the unwrapping `o1 = o1[0]`, the two assertions, the loop over `range(l_)` with
+`n = func(c1, c2); if n: return n * multiplier`, `return 0`), run on the `sf_list` the fields stand for, hands back exactly
+the integer of the model's ordering, for every list of fields and every pair of key lists of that length (the length is
+what the source asserts; `gen_sortby_call_asserts` below). -/
+theorem gen_sortby_call_is_model (lower : Text → Text) (nfs : List (Text × Field)) (k1 k2 : List (Option Key))
+    (c1 c2 : Nat) (h1 : k1.length = nfs.length) (h2 : k2.length = nfs.length) :
+    sortByCallGen true (nfs.map (sfOf lower)) (.pair (.keys k1) c1) (.pair (.keys k2) c2) =
+      some (intOfOrd (cmpKeys lower (nfs.map (·.2)) k1 k2)) := by
+  have h := loop_keys lower nfs k1 k2 h1 h2 nfs.length 0 (by omega)
+  simp only [List.drop_zero] at h
+  simp [sortByCallGen, PV.index, PV.len, boolInt, h1, h2, List.range_eq_range', h]
+
+/-- the same, read as `functools.cmp_to_key` reads it -/
+theorem gen_sortby_call_ordering (lower : Text → Text) (nfs : List (Text × Field)) (k1 k2 : List (Option Key))
+    (c1 c2 : Nat) (h1 : k1.length = nfs.length) (h2 : k2.length = nfs.length) :
+    (sortByCallGen true (nfs.map (sfOf lower)) (.pair (.keys k1) c1) (.pair (.keys k2) c2)).map ordOfInt =
+      some (cmpKeys lower (nfs.map (·.2)) k1 k2) := by
+  rw [gen_sortby_call_is_model lower nfs k1 k2 c1 c2 h1 h2]; simp [ordOfInt_intOfOrd]
+
+/-- a key list of another length than `sf_list` trips the assertion of the source -/
+theorem gen_sortby_call_asserts (lower : Text → Text) (nfs : List (Text × Field)) (k1 k2 : List (Option Key))
+    (c1 c2 : Nat) (h : k1.length ≠ nfs.length ∨ k2.length ≠ nfs.length) :
+    sortByCallGen true (nfs.map (sfOf lower)) (.pair (.keys k1) c1) (.pair (.keys k2) c2) = none := by
+  rcases h with h | h
+  · have : ¬ ((k1.length : Int) = (nfs.length : Int)) := by omega
+    simp [sortByCallGen, PV.index, PV.len, boolInt, this]
+  · have : ¬ ((k2.length : Int) = (nfs.length : Int)) := by omega
+    simp [sortByCallGen, PV.index, PV.len, boolInt, this]
+
+/-- **one sort key with a comparison function** (`sort="key/nocase"`: the items are `(key, client)`, not unwrapped, and
+`o1[0]` is the key) -/
+theorem gen_sortby_call_single_is_model (lower : Text → Text) (nf : Text × Field) (a b : Option Key) (c1 c2 : Nat) :
+    sortByCallGen false [sfOf lower nf] (.pair (.key a) c1) (.pair (.key b) c2) =
+      some (intOfOrd (cmpKeys lower [nf.2] [a] [b])) := by
+  obtain ⟨name, kind, desc⟩ := nf
+  have hm := intOfOrd_mul lower kind desc a b
+  have hf : funcOf lower kind (PV.key a) (PV.key b) = some (intOfOrd (cmpField lower ⟨kind, false⟩ a b)) := rfl
+  have he := cmpField_false_eq lower kind desc a b
+  have hr : List.range 1 = [0] := rfl
+  have hl : sortByCallGen false [sfOf lower (name, ⟨kind, desc⟩)] (.pair (.key a) c1) (.pair (.key b) c2) =
+      sortByLoopGen [sfOf lower (name, ⟨kind, desc⟩)] (.pair (.key a) c1) (.pair (.key b) c2) [0] := by
+    simp [sortByCallGen, PV.len, boolInt, hr]
+  rw [hl]
+  simp only [PV.index, sortByLoopGen, sfOf, cmpKeys, List.head?_cons, Option.join_some, Ordering.then_eq, hf, hm,
+    Option.bind_some, List.getElem?_cons_zero]
+  by_cases hc : cmpField lower ⟨kind, false⟩ a b = .eq
+  · simp [hc, he.1 hc, intOfOrd]
+  · have hz : intOfOrd (cmpField lower ⟨kind, false⟩ a b) ≠ 0 := fun h => hc ((intOfOrd_eq_zero _).1 h)
+    simp [hz]
+
+/-- non-vacuity: lists of equal length exist, and the two directions differ -/
+example : sortByCallGen true ([("a".toList, (⟨.cmp, true⟩ : Field))].map (sfOf id)) (.pair (.keys [some (.int 1)]) 0)
+    (.pair (.keys [some (.int 2)]) 1) = some 1 := by decide
+
+/-- **the key extraction of `sort_sequence`, one sort key, is `extract`**: whatever `v.get(sort)` (mapping) or
+`getattr(v, sort, None)` finds - a plain value of any type, None, nothing, a callable, a non-basic value - the statements
+of the source (the `basic_type(type(k))` test against the table of the source, the call inside `try`, `None -> _Smallest`)
+leave the key the model extracts -/
+theorem gen_extract_single_is_model (mapping : Bool) (v : PyObj) (sort : Text) (t rt : PyType) (a : AttrVal)
+    (h : look mapping v sort = conc t rt a) :
+    (extractKeySingleGen mapping v sort).bind absKey = some (extract a) := single_conc mapping v sort t rt a h
+
+/-- one sort key: a callable whose call raises, and one that returns None, give `_Smallest` -/
+theorem gen_extract_single_failing_callable (mapping : Bool) (v : PyObj) (sort : Text) (r : CallRes)
+    (hr : r = .raises ∨ r = .retNone) (h : look mapping v sort = some (.callable r)) :
+    extractKeySingleGen mapping v sort = some .smallest := by
+  cases mapping <;> simp only [look, Bool.false_eq_true, if_false, if_true] at h <;> rcases hr with rfl | rfl <;>
+    simp [extractKeySingleGen, PyObj.get, PyObj.getattr, h, PyVal.typeOf, PyVal.call, PyVal.isCallable, PyVal.isNone,
+      fn_not_basic]
+
+/-- **several sort keys: each key appended is `extract`**.  Here the source asks `basic_type(akey)` of the value itself,
+which is false of every value and raises for an unhashable one: a list-valued attribute makes a multi-key sort raise
+TypeError (the hypothesis `t ≠ .list`; one sort key accepts it, see above). -/
+theorem gen_extract_multi_is_model (mapping : Bool) (v : PyObj) (sk : Text) (t rt : PyType) (a : AttrVal)
+    (ht : t ≠ .list) (h : look mapping v sk = conc t rt a) :
+    (extractKeyMultiGen mapping v sk).bind absKey = some (extract a) := multi_conc mapping v sk t rt a ht h
+
+/-- several sort keys: a callable whose call raises stays the key (the source passes the exception) -/
+theorem gen_extract_multi_failing_callable (mapping : Bool) (v : PyObj) (sk : Text)
+    (h : look mapping v sk = some (.callable .raises)) :
+    extractKeyMultiGen mapping v sk = some (.callable .raises) := by
+  have hc : ∀ r, typeTableHasValue basicTypes (.callable r) = some false := fun _ => rfl
+  cases mapping <;> simp only [look, Bool.false_eq_true, if_false, if_true] at h <;>
+    simp [extractKeyMultiGen, PyObj.get, PyObj.getattr, h, hc, PyVal.call, PyVal.isNone]
+
+/-- **the key list of a multi-key sort is the row of the model** (`decorate`: `row.map extract`): `k = []`, one key appended
+per sort field, in the order of the fields - so it has the length `SortBy.__call__` asserts -/
+theorem gen_extract_keys_is_model (mapping : Bool) (v : PyObj) (t rt : PyType) (ht : t ≠ .list)
+    (fas : List (Text × AttrVal)) (h : ∀ p ∈ fas, look mapping v p.1 = conc t rt p.2) :
+    ∃ ks, extractKeysMultiGen mapping v (fas.map (·.1)) = some ks ∧
+      ks.map absKey = (fas.map (·.2)).map (fun a => some (extract a)) ∧ ks.length = fas.length := by
+  obtain ⟨ks, h1, h2⟩ := keys_loop mapping v t rt ht fas [] h
+  refine ⟨ks, by simpa [extractKeysMultiGen] using h1, by rw [h2, List.map_map]; rfl, ?_⟩
+  have := congrArg List.length h2
+  simpa using this
+
+/-- non-vacuity of `t ≠ .list`, and what the hypothesis excludes -/
+example : PyType.str ≠ PyType.list := by decide
+example : extractKeyMultiGen false ⟨fun _ => none, fun _ => some (.val .list (.int 0))⟩ [] = none := rfl
+example : (extractKeySingleGen false ⟨fun _ => none, fun _ => some (.val .list (.int 0))⟩ []).bind absKey =
+    some (some (.int 0)) := gen_extract_single_is_model false _ [] .list .int (.plain (.int 0)) rfl
+
+end Gen
 
 end DTML.Props.C13
